@@ -142,14 +142,6 @@ type orow struct {
 
 func (r orow) String() string { return "(" + strings.Join(r.vals, ",") + ")" }
 
-func rowsString(rs []orow) string {
-	parts := make([]string, len(rs))
-	for i, r := range rs {
-		parts[i] = r.String()
-	}
-	return "[" + strings.Join(parts, " ") + "]"
-}
-
 // checkSorted verifies direction (1) of the oracle: the output sequence is non-decreasing under
 // the key comparator. It returns "" or a description of the first inversion.
 func checkSorted(out []orow, ks []keySpec) string {
